@@ -237,9 +237,11 @@ func (d *DefaultClientDispatcher) messagePump() {
 			continue
 		}
 
-		// Only dispatch request if able to send, request queue isn't empty and no request is awaiting its response
-		// (a second ready signal, e.g. from Resume, must not send the outstanding request again)
-		if rdy && !d.requestQueue.IsEmpty() && !d.pendingRequestState.HasPendingRequest() {
+		// Only dispatch request if able to send, no request is awaiting its response and request queue isn't empty
+		// (a second ready signal, e.g. from Resume, must not send the outstanding request again).
+		// The pending check comes first: while a request is pending, its response may take it off the queue at any
+		// moment, so "not empty" is only reliable once nothing is pending.
+		if rdy && !d.pendingRequestState.HasPendingRequest() && !d.requestQueue.IsEmpty() {
 			d.dispatchNextRequest()
 			rdy = false
 			// Set timer
@@ -641,8 +643,9 @@ func (d *DefaultServerDispatcher) messagePump() {
 			log.Debugf("%v ready to transmit again", clientID)
 		}
 
-		// Only dispatch request if able to send, request queue isn't empty and no request is awaiting its response
-		if rdy && clientQueue != nil && !clientQueue.IsEmpty() && !d.pendingRequestState.HasPendingRequest(clientID) {
+		// Only dispatch request if able to send, no request is awaiting its response and request queue isn't empty
+		// (in this order: while a request is pending, its response may take it off the queue at any moment)
+		if rdy && clientQueue != nil && !d.pendingRequestState.HasPendingRequest(clientID) && !clientQueue.IsEmpty() {
 			// Send request & set new context
 			clientCtx = d.dispatchNextRequest(clientID)
 			clientContextMap[clientID] = clientCtx
